@@ -28,6 +28,9 @@ import (
 //	replay <selfA> <nameA> <local entries…> [| <originO> <nameO> <entries…>]…
 //	    A additionally learns one group per remote origin O (advertised by O itself as A's
 //	    peer), then SendFullTable(B).
+//	withdraw <selfA> <nameA> <entries…>
+//	    A originates the entries and announces them, B learns them; then A.WithdrawLocalRoutes() and B
+//	    handles the ROUTE_WITHDRAW frames: the dump shows what B still holds.
 //	forward <selfA> <routeadv tokens as in engine c05>
 //	    A receives the advertisement from a peer P and floods it; B handles what A sent to B.
 //	-> ok drops=<frames refused by Frame.Encode> errs=<frames B could not decode> learned <sorted entries…>
@@ -181,42 +184,71 @@ func c06Dump(m *routing.Manager) []string {
 
 var c06PeerB = identity.AgentID{0xbb, 0xbb, 0xbb, 0xbb, 0xb0, 0xb1, 0xb2, 0xb3, 0xb4, 0xb5, 0xb6, 0xb7, 0xb8, 0xb9, 0xba, 0xbb}
 
-// deliver the frames A sent to B over "the wire" and let B's real flooder handle them
-func c06Neighbour(fromA identity.AgentID, frames []*protocol.Frame) string {
+// c06B is the neighbour: a real Flooder + Manager fed with what A sent "over the wire".
+type c06B struct {
+	m           *routing.Manager
+	f           *flood.Flooder
+	drops, errs int
+}
+
+func c06NewB() *c06B {
 	mB := routing.NewManager(c06PeerB)
-	sB := &c06Sender{}
-	fB := flood.NewFlooder(flood.DefaultFloodConfig(), c06PeerB, mB, sB)
-	defer fB.Stop()
-	drops, errs := 0, 0
+	return &c06B{m: mB, f: flood.NewFlooder(flood.DefaultFloodConfig(), c06PeerB, mB, &c06Sender{})}
+}
+
+func (b *c06B) deliver(fromA identity.AgentID, frames []*protocol.Frame) {
 	for _, fr := range frames {
 		if fr == nil {
-			drops++
+			b.drops++
 			continue
 		}
 		wire, err := fr.Encode()
 		if err != nil {
-			drops++
+			b.drops++
 			continue
 		}
 		got, err := protocol.Decode(wire)
-		if err != nil || got.Type != protocol.FrameRouteAdvertise {
-			errs++
-			continue
-		}
-		adv, err := protocol.DecodeRouteAdvertise(got.Payload)
 		if err != nil {
-			errs++
+			b.errs++
 			continue
 		}
-		fB.HandleRouteAdvertise(fromA, adv.OriginAgent, adv.OriginDisplayName, adv.Sequence, adv.Routes, adv.EncPath, adv.SeenBy)
+		switch got.Type {
+		case protocol.FrameRouteAdvertise:
+			adv, err := protocol.DecodeRouteAdvertise(got.Payload)
+			if err != nil {
+				b.errs++
+				continue
+			}
+			b.f.HandleRouteAdvertise(fromA, adv.OriginAgent, adv.OriginDisplayName, adv.Sequence, adv.Routes, adv.EncPath, adv.SeenBy)
+		case protocol.FrameRouteWithdraw:
+			wd, err := protocol.DecodeRouteWithdraw(got.Payload)
+			if err != nil {
+				b.errs++
+				continue
+			}
+			b.f.HandleRouteWithdraw(fromA, wd.OriginAgent, wd.Sequence, wd.Routes, wd.SeenBy)
+		default:
+			b.errs++
+		}
 	}
-	return fmt.Sprintf("ok drops=%d errs=%d learned %s", drops, errs, strings.Join(c06Dump(mB), " "))
+}
+
+func (b *c06B) result() string {
+	defer b.f.Stop()
+	return fmt.Sprintf("ok drops=%d errs=%d learned %s", b.drops, b.errs, strings.Join(c06Dump(b.m), " "))
+}
+
+// deliver the frames A sent to B over "the wire" and let B's real flooder handle them
+func c06Neighbour(fromA identity.AgentID, frames []*protocol.Frame) string {
+	b := c06NewB()
+	b.deliver(fromA, frames)
+	return b.result()
 }
 
 func c06Run(line string) string {
 	f := fields(line)
 	switch f[0] {
-	case "announce", "replay":
+	case "announce", "replay", "withdraw":
 		self, name := c06ID(f[1]), string(unhexTok(f[2]))
 		local, rest := c06Entries(f[3:])
 		mA := routing.NewManager(self)
@@ -229,6 +261,18 @@ func c06Run(line string) string {
 		if f[0] == "announce" {
 			fA.AnnounceLocalRoutes()
 			return c06Neighbour(self, sA.frames[c06PeerB])
+		}
+		if f[0] == "withdraw" { // announce, let B learn everything, then withdraw the local (CIDR) routes
+			b := c06NewB()
+			fA.AnnounceLocalRoutes()
+			b.deliver(self, sA.frames[c06PeerB])
+			if b.drops+b.errs > 0 {
+				return "ok announce-failed " + b.result()
+			}
+			sA.frames = nil
+			fA.WithdrawLocalRoutes()
+			b.deliver(self, sA.frames[c06PeerB])
+			return b.result()
 		}
 		for len(rest) > 0 {
 			origin, oname := c06ID(rest[0]), string(unhexTok(rest[1]))
@@ -314,6 +358,13 @@ func c06Gen(w *bufio.Writer, seed int64, tier string) {
 			name = hexTok([]byte("agent-a"))
 		}
 		switch {
+		case i%13 == 5 || i%13 == 11: // announce then withdraw the local CIDR routes
+			nc := counts[r.intn(len(counts))]
+			if r.chance(25) {
+				nc = r.pick(2030, 2100, 3000) // over one frame of 8-byte routes
+			}
+			fmt.Fprintf(&sb, "withdraw %s %s", selfTok(0xaa), name)
+			c06GenEntries(&sb, r, nc, small(), small(), 1, false)
 		case i%13 < 6: // announce: one family large, the others small, or a mixture
 			nc, nd, nf := small(), small(), small()
 			long := false
